@@ -41,6 +41,13 @@ type Case struct {
 	HR     string `json:"hr,omitempty"`     // hex: handler response (EVM sources)
 	Amount string `json:"amount,omitempty"` // decimal satoshi (btc source)
 	Note   string `json:"note,omitempty"`   // generator's label (not used by the run)
+	// inputs of HandleDeposit that no handler is supposed to look at for this kind of deposit (the model has no
+	// such input: the relay is a function of the fields above).  Absent = the fixed values of the older corpora.
+	HRNil    bool    `json:"hrNil,omitempty"`    // the handler response is a nil slice (hr must be empty)
+	MsgID    *string `json:"msgId,omitempty"`    // message id text handed to the EVM / substrate handlers
+	TS       *int64  `json:"ts,omitempty"`       // timestamp, unix seconds
+	Sender   string  `json:"sender,omitempty"`   // hex, 20 bytes: the depositor (indexed topic of the Deposit log, histories)
+	BtcBlock string  `json:"btcBlock,omitempty"` // decimal: block number handed to the BTC handler (message id only)
 	// place of an EVM deposit on its source chain (pool entries of a history only)
 	Block  uint64 `json:"block,omitempty"`
 	Tx     string `json:"tx,omitempty"` // hex, 32 bytes
@@ -105,6 +112,35 @@ func mustHex(s string) []byte {
 	return b
 }
 
+// the inputs no handler is supposed to look at (see Case)
+func (c Case) handlerResponse() []byte {
+	if c.HRNil && c.HR == "" {
+		return nil
+	}
+	return exact(mustHex(c.HR))
+}
+
+func (c Case) timestamp() time.Time {
+	if c.TS == nil {
+		return time.Unix(1700000000, 0)
+	}
+	return time.Unix(*c.TS, 0)
+}
+
+func (c Case) messageID() string {
+	if c.MsgID == nil {
+		return "msg-id"
+	}
+	return *c.MsgID
+}
+
+func (c Case) btcBlock() *big.Int {
+	if b, ok := new(big.Int).SetString(c.BtcBlock, 10); ok {
+		return b
+	}
+	return big.NewInt(100)
+}
+
 func source(c Case) (m *message.Message, class string) {
 	defer func() {
 		if r := recover(); r != nil {
@@ -113,22 +149,22 @@ func source(c Case) (m *message.Message, class string) {
 	}()
 	var rid [32]byte
 	copy(rid[:], mustHex(c.Rid))
-	data, hr := exact(mustHex(c.Data)), exact(mustHex(c.HR))
-	ts := time.Unix(1700000000, 0)
+	data, hr := exact(mustHex(c.Data)), c.handlerResponse()
+	ts, id := c.timestamp(), c.messageID()
 	var err error
 	switch c.Src {
 	case "erc20", "erc721", "erc1155", "generic":
-		m, err = newEthDepositHandler(c.Src).HandleDeposit(c.SrcDom, c.DstDom, c.Nonce, rid, data, hr, "msg-id", ts)
+		m, err = newEthDepositHandler(c.Src).HandleDeposit(c.SrcDom, c.DstDom, c.Nonce, rid, data, hr, id, ts)
 	case "sub":
 		dh := sublistener.NewSubstrateDepositHandler()
 		dh.RegisterDepositHandler(transfer.FungibleTransfer, sublistener.FungibleTransferHandler)
-		m, err = dh.HandleDeposit(c.SrcDom, types.U8(c.DstDom), types.U64(c.Nonce), types.Bytes32(rid), data, types.U8(0), "msg-id", ts)
+		m, err = dh.HandleDeposit(c.SrcDom, types.U8(c.DstDom), types.U64(c.Nonce), types.Bytes32(rid), data, types.U8(0), id, ts)
 	case "btc":
 		amount, ok := new(big.Int).SetString(c.Amount, 10)
 		if !ok {
 			panic("bad amount")
 		}
-		m, err = btclistener.NewBtcDepositHandler().HandleDeposit(c.SrcDom, c.Nonce, rid, amount, string(data), big.NewInt(100), ts)
+		m, err = btclistener.NewBtcDepositHandler().HandleDeposit(c.SrcDom, c.Nonce, rid, amount, string(data), c.btcBlock(), ts)
 	default:
 		panic("unknown source kind " + c.Src)
 	}
@@ -215,6 +251,6 @@ func main() {
 			return wellFormed(c) && (o.Class == "prop" || o.Class == "btcprop")
 		},
 		ShardSize: 170,
-		Rule:      "per source handler: amounts from the width table (1, 8, 63..65, 128, 255, 256 bits, 0, 2^256-1), recipient lengths 0,1,19,20,21,31,32,33,64,255 + random, optional-message tails absent / 33 / 64 / 64+n bytes with fee words at the 2^64 and 2^256-100000 boundaries, handler responses absent / 32 / 33+ bytes, ERC1155 vectors of 0..6 ids, generic parts of 0..255 bytes, BTC amounts up to 2^64 satoshi and beyond; all (source, destination) handler pairs; envelopes incl. domains 0/255 and nonce 2^64-1; plus a malformed stream (truncations, hostile length words) on which only model = implementation is compared; distinct = distinct input JSON; non-trivial = well-formed deposit for which a proposal was prepared; plus histories (kind seq:...) of 2..8 steps over ONE set of long-lived objects wired as app.go does (scripted ChainClient -> events.Listener -> DepositEventHandler / RetryV1EventHandler / RetryMessageHandler -> one ETHDepositHandler with a HandlerMatcher that fails on script; one substrate and one btc deposit handler; one message handler per destination): 3..7 EVM deposits of 2..4 resources (ids differing in one byte in half of the histories) + 0..3 substrate/btc deposits, block scans / re-scans / v1 and v2 retries of the same deposit, scripted lookup / fetch / block-fetch failures followed by the retried request (half of the histories are fault free), batches routed as Relayer.route does, concurrent steps; every proposal read when built, when its batch is written and at the end of the history; non-trivial history = at least two steps and a proposal for a well-formed deposit",
+		Rule:      "per source handler: amounts from the width table (1, 8, 63..65, 128, 255, 256 bits, 0, 2^256-1), recipient lengths 0,1,19,20,21,31,32,33,64,255 + random, optional-message tails absent / 33 / 64 / 64+n bytes with fee words at the 2^64 and 2^256-100000 boundaries, handler responses for EVERY EVM handler kind: nil / empty / 32 bytes zero / 32 bytes / 33+ bytes (ERC20; 1..31 bytes in the malformed stream), and for the handlers that are not supposed to look at it also 1..31 bytes and ABI-encoded strings; a third of the deposits with every variable-length calldata field empty / every amount zero with probability 1/2; message id text, timestamp, Bitcoin block number and (histories) the depositor's address varied in 3 of 4 deposits, ERC1155 vectors of 0..6 ids, generic parts of 0..255 bytes, BTC amounts up to 2^64 satoshi and beyond; all (source, destination) handler pairs; envelopes incl. domains 0/255 and nonce 2^64-1; plus a malformed stream (truncations, hostile length words) on which only model = implementation is compared; distinct = distinct input JSON; non-trivial = well-formed deposit for which a proposal was prepared; plus histories (kind seq:...) of 2..8 steps over ONE set of long-lived objects wired as app.go does (scripted ChainClient -> events.Listener -> DepositEventHandler / RetryV1EventHandler / RetryMessageHandler -> one ETHDepositHandler with a HandlerMatcher that fails on script; one substrate and one btc deposit handler; one message handler per destination): 3..7 EVM deposits of 2..4 resources (ids differing in one byte in half of the histories) + 0..3 substrate/btc deposits, block scans / re-scans / v1 and v2 retries of the same deposit, scripted lookup / fetch / block-fetch failures followed by the retried request (half of the histories are fault free), batches routed as Relayer.route does, concurrent steps; every proposal read when built, when its batch is written and at the end of the history; non-trivial history = at least two steps and a proposal for a well-formed deposit",
 	})
 }
